@@ -32,6 +32,8 @@ var svcSpecs = map[string]svcSpec{
 	"eos":           {"eos", "tcp", 8888, ""},
 	"ethereum":      {"ethereum", "tcp", 8545, ""},
 	"ftp":           {"ftp", "tcp", 21, ""},
+	// a port served by several services (the connection is peeked at before a service is chosen)
+	"shared-port": {"shared-port", "tcp", 8099, ""},
 	// the real FTP service with its credential checker built over a harness-chosen table (hook VerifAuth)
 	"verif-ftp-auth": {"verif-ftp-auth", "tcp", 2121, ""},
 	"http":           {"http", "tcp", 80, ""},
